@@ -66,6 +66,11 @@ func (a *ActionHeader) UnmarshalBinary(data []byte) error {
 
 // Decode Action types.
 func DecodeAction(data []byte) (Action, error) {
+	if len(data) < 4 || binary.BigEndian.Uint16(data[2:4]) < 8 {
+		// every OpenFlow action is at least 8 bytes; a smaller length field would
+		// make the list decoders advance by nothing
+		return nil, errors.New("the []byte is too short or carries an action length below 8")
+	}
 	t := binary.BigEndian.Uint16(data[:2])
 	var a Action
 	switch t {
